@@ -30,7 +30,7 @@ TOK = "hypnotoad/cases/tokamak.py"
 
 
 def T(mod, n):
-    return "".join(mod.text(n).split())
+    return mod.code(n)
 
 
 def run(rep, tier):
